@@ -268,7 +268,7 @@ def random_tree_over(rng, d, names):
     return fix(t)
 
 
-def cases(chunk):
+def _cases(chunk):
     rng = gen.rng_for(PROP, chunk)
     kind = chunk["kind"]
     if kind in ("exh2", "exh3"):
@@ -454,6 +454,26 @@ def cases(chunk):
                     yield dict(env_case(feat), kind="opobj", what=["fn", fn], lit="2")
 
 
+def cases(chunk):
+    """The generated cases; every third tree / sequence case spells its feature names unusually (NAME_QUADS), and a
+    few are inflated to tracks of hundreds of observations (same trees and statements, longer vectors)."""
+    import random
+    rng = random.Random("%s:%s:%s:post" % (chunk.get("tier"), chunk.get("seed"), chunk.get("key")))
+    for i, c in enumerate(_cases(chunk)):
+        if c.get("kind") in ("tree", "seq") and "feat" in c:
+            if i % 3 == 1:
+                c["names"] = 1 + (i // 3) % (len(NAME_QUADS) - 1)
+            if chunk["kind"] in ("rand", "seq") and i % 40 == 11 and not c.get("big"):
+                n = rng.choice([129, 130, 257, 300, 520, 1100])
+                feat = {k: [rng.choice(VALS) for _ in range(n)] for k in NAMES}
+                if rng.random() < 0.15:
+                    feat[rng.choice(NAMES)][rng.randrange(n)] = float("nan")
+                big = env_case(feat, rng)
+                c["feat"], c["xyz"], c["times_ms"] = big["feat"], big["xyz"], big["times_ms"]
+                c["scale"] = 1
+        yield c
+
+
 def decode_case(case):
     def fix(v):
         if v == "NaN":
@@ -467,14 +487,28 @@ def decode_case(case):
 
 
 # --------------------------------------------------------------------------
+# less usual but legal feature names (operate()'s own documentation uses "P=X+Y"): the trees and the oracle keep the
+# logical names a, b, s (inputs) and c (new target); a NameProxy spells them at the library boundary
+NAME_QUADS = [("a", "b", "s", "c"), ("X", "Y", "Z", "P"), ("T", "Idx", "A", "a1"), ("ab", "abc", "b", "a"),
+              ("speed", "sp", "s2", "S"), ("id", "u", "i", "ui"), ("a_b", "A", "a1", "V"), ("Y", "Z", "X", "T"),
+              ("ele", "time", "elevation", "timer")]
+
+
 def build(case):
     n = len(case["feat"]["a"])
     tr = gen.make_track([tuple(p) for p in case["xyz"]], times_ms=case["times_ms"])
+    if case.get("names"):
+        tr = gen.NameProxy(tr, dict(zip(("a", "b", "s", "c"), NAME_QUADS[case["names"] % len(NAME_QUADS)])))
+        M.CTX.count("less_usual_feature_names")
     for k in NAMES:
         tr.createAnalyticalFeature(k, list(case["feat"][k]))
     if (n + int(case["times_ms"][0] // 500)) % 4 == 0:
         # the track handed to the evaluator is itself the product of another public operation (same values)
-        tr, _how = gen.derive(tr, (case["xyz"], case["times_ms"]))
+        if isinstance(tr, gen.NameProxy):
+            d, _how = gen.derive(tr._tr, (case["xyz"], case["times_ms"]))
+            tr = gen.NameProxy(d, tr._nm)
+        else:
+            tr, _how = gen.derive(tr, (case["xyz"], case["times_ms"]))
     env = {k: list(v) for k, v in case["feat"].items()}
     env["x"] = [p[0] for p in case["xyz"]]
     env["y"] = [p[1] for p in case["xyz"]]
@@ -664,7 +698,7 @@ def judge_stmt(tr, env, n, stmt, ctx, cls):
         # localisation: does tracklib's own postfix program, run by an independent stack machine, mean the same?
         if rpn is not None:
             try:
-                r = E.eval_rpn(rpn[1], env, n)
+                r = E.eval_rpn(rpn[1], tr.real_env(env) if isinstance(tr, gen.NameProxy) else env, n)
                 rv = r[-1]
                 same = all(E.close(rv.v[i], val, i) for i in range(n))
                 w["parser"] = {"rewritten": rpn[0], "rpn": rpn[1],
@@ -676,7 +710,7 @@ def judge_stmt(tr, env, n, stmt, ctx, cls):
     # diagnostic monitor on the parser (never a verdict on its own; evaluated with the inputs of this statement)
     if rpn is not None:
         try:
-            r = E.eval_rpn(rpn[1], env, n)
+            r = E.eval_rpn(rpn[1], tr.real_env(env) if isinstance(tr, gen.NameProxy) else env, n)
             ctx.monitor("rpn.semantic")
             if not all(E.close(r[-1].v[i], val, i) for i in range(n)):
                 ctx.count("rpn_monitor_disagrees_with_the_tree")
@@ -773,6 +807,10 @@ def run_tree(case, ctx):
         cls.add("repeated_function_term")
     if case.get("big"):
         cls.add("realistic_magnitudes")
+    if case.get("scale"):
+        cls.add("track_of_hundreds_of_observations")
+    if case.get("names"):
+        cls.add("less_usual_feature_names")
     stmts = case["stmts"] if case["kind"] == "seq" else [case]
     other = other_before = None
     if case["kind"] == "seq" and (n + len(stmts)) % 3 == 0 and n >= 1:
@@ -956,7 +994,8 @@ def classify(case, witness):
 
 # floors for the call-history workloads added in session 3 (a run in which they were silently skipped is inconclusive)
 _floors_base = floors
-_FLOORS_EXTRA = {'classes': {'nan_in_minmax': 500, 'repeated_function_term': 1000, 'externals_dictionary': 500, 'realistic_magnitudes': 800, 'related_track_must_stay_untouched': 1000}}
+_FLOORS_EXTRA = {'classes': {'nan_in_minmax': 500, 'repeated_function_term': 1000, 'externals_dictionary': 500, 'realistic_magnitudes': 800, 'related_track_must_stay_untouched': 1000,
+                             'less_usual_feature_names': 5000, 'track_of_hundreds_of_observations': 300}}
 
 
 def floors(tier):
